@@ -116,6 +116,8 @@ def run(ctx):
                                             "rename": "C12-rename-simultaneous", "values": "C12-values-untouched", "nested": "C12-nesting",
                                             "default": "C12-values-untouched"})
     d_uni = importtables.rule_union(ctx, "C12-union")
+    # declarations of two and three real import sets (the same library, overlapping names): the union, whatever the order
+    d_uni += importtables.rule_declarations(ctx, "C12-union")
 
     def _old_arms():
         # ------------------------------------------------------------------ arms of eval_import_set
